@@ -145,13 +145,14 @@ def replaceLoop (S : List Nat) (f : Caps → List Nat) : List Caps → Nat → L
 /-- §15.5.4.11 String.prototype.replace with a RegExp searchValue.
     global: the matches of §15.5.4.10 (lastIndex ends at 0); not global: the first match, the
     object is left alone. -/
-def stringReplace (E : SEng) (rx : RX) (S : List Nat) (repl : Option (List Nat)) : RX × Res :=
+def stringReplace (E : SEng) (rx : RX) (S : List Nat) (repl : Repl) : RX × Res :=
   let (rx', ms) : RX × List Caps :=
     if rx.global then globalMatches E rx S
     else (rx, match searchFrom E S 0 with | some c => [c] | none => [])
   let f : Caps → List Nat := match repl with
-    | some rv => fun c => expand S c rv
-    | none => fun c => reportArgs (replacerArgs S c)
+    | .str rv => fun c => expand S c rv
+    | .report => fun c => reportArgs (replacerArgs S c)
+    | .const ret => fun _ => ret              -- ToString(result of the call), used verbatim (step "if replaceValue is a function")
   (rx', .str (replaceLoop S f ms 0 []))
 
 /-- §15.5.4.12 String.prototype.search: lastIndex and global are ignored and left unchanged -/
@@ -200,8 +201,9 @@ def step (E : SEng) (S : List Nat) (repU : List Nat → List Nat) (rx : RX) : St
   | .test => test E rx S
   | .mtch => stringMatch E rx S
   | .search => stringSearch E rx S
-  | .replaceS r => stringReplace E rx S (some (repU r))
-  | .replaceF => stringReplace E rx S none
+  | .replaceS r => stringReplace E rx S (.str (repU r))
+  | .replaceF => stringReplace E rx S .report
+  | .replaceK r => stringReplace E rx S (.const (repU r))
   | .split l => stringSplit E rx S l
   | .setLI v => ({ rx with lastIndex := v }, .undef)
 
